@@ -212,9 +212,9 @@ example : runFormat (.utf8 .checkValidity) (some [128]) [] = .throw .unicodeErro
 example : run (some [123, 46, 125]) [.str [97, 98]] = .ok [.append []] := by decide +kernel
 example : (∀ a ∈ [Arg.sint 32 5, Arg.str [97]], a.LibcRenders) := by simp [Arg.LibcRenders]
 /-- wide text: `{}` of u"é" (U+00E9) renders its UTF-8 bytes; an unpaired surrogate is `unicode_error` -/
-example : run (some [123, 125]) [.wide .utf16 [0xE9]] = .ok [.append [0xC3, 0xA9]] := by decide +kernel
-example : run (some [123, 125]) [.wide .utf16 [0xD800]] = .throw .unicodeError := by decide +kernel
-example : (Arg.wide .utf16 [0xE9, 0xD800]).WideOk := by
+example : run (some [123, 125]) [.wide .utf16 .checkValidity [0xE9]] = .ok [.append [0xC3, 0xA9]] := by decide +kernel
+example : run (some [123, 125]) [.wide .utf16 .checkValidity [0xD800]] = .throw .unicodeError := by decide +kernel
+example : (Arg.wide .utf16 .checkValidity [0xE9, 0xD800]).WideOk := by
   refine ⟨Or.inl ⟨rfl, ?_⟩, by decide⟩
   intro x hx; simp at hx; omega
 /-- a 100-byte floating-point rendering is output in full (it used to abort, defect 13) -/
